@@ -234,6 +234,15 @@ Fixpoint insert_groups (ms : list moment) (gs : list (Z * list opd)) : list mome
       end
   end.
 
+(* _push_frontier(early_frontier, late_frontier): blank moments in front of the next operations *)
+Definition push_frontier (ms : list moment) (f1 : fmap) (late : list (Z * Z)) (update_qubits : list Z) : list moment * fmap :=
+  let n_new := zmax_of (map (fun kv => fget f1 (fst kv) - snd kv) late) 0 in
+  if 0 <? n_new then
+    let ii := zmin_of (map snd late) 0 in
+    (splice (Z.to_nat ii) (Z.to_nat ii) (repeat [] (Z.to_nat n_new)) ms,
+     fold_left (fun acc q => if ii <? fget acc q then fset acc q (fget acc q + n_new) else acc) update_qubits f1)
+  else (ms, f1).
+
 Definition insert_at_frontier (c : cstate) (its : list item) (start : Z) (f0 : fmap) : cstate * (fmap + err) :=
   let ops := items_ops its in
   match ops with
@@ -242,19 +251,10 @@ Definition insert_at_frontier (c : cstate) (its : list item) (start : Z) (f0 : f
       let qubits := dedup (flat_map qs ops) in
       if existsb (fun q => start <? fget f0 q) qubits then (c, inr ValueError)
       else
-        let n := length (moms c) in
         let late := map (fun q => (q, next_moment_of (moms c) q (Z.to_nat start))) qubits in
         let '(idxs, f1) := pick_indices ops start f0 in
-        (* _push_frontier(frontier, next_moments) *)
         let update_qubits := filter (fun q => negb (memz q qubits)) (dedup (map fst f0)) in
-        let n_new := zmax_of (map (fun kv => fget f1 (fst kv) - snd kv) late) 0 in
-        let '(ms1, f2, pushed) :=
-          if 0 <? n_new then
-            let ii := zmin_of (map snd late) 0 in
-            (splice (Z.to_nat ii) (Z.to_nat ii) (repeat [] (Z.to_nat n_new)) (moms c),
-             fold_left (fun acc q => if ii <? fget acc q then fset acc q (fget acc q + n_new) else acc) update_qubits f1,
-             true)
-          else (moms c, f1, false) in
+        let '(ms1, f2) := push_frontier (moms c) f1 late update_qubits in
         (* _insert_operations *)
         let mx := zmax_of idxs 0 in
         let ms2 := ms1 ++ repeat [] (Z.to_nat (1 + mx - Z.of_nat (length ms1))) in
